@@ -1022,6 +1022,8 @@ class Views(Stream):
 
     DEFINED_T = {1, 2, 3, 4, 5, 6, 7, 8, 9, 10, 11, 12, 13, 14, 15, 16, 28, 41, 252, 253, 254, 255}
     DEFINED_C = {1, 2, 3, 4, 255}
+    VARIANT = {1: "A", 28: "Aaaa", 2: "Name", 3: "Name", 4: "Name", 5: "Name", 7: "Name", 8: "Name", 9: "Name", 12: "Name",
+               13: "Hinfo", 11: "Wks", 14: "Minfo", 15: "Mx", 10: "Null", 6: "Soa", 16: "Txt"}
 
     def iter_vs_reader(self, it, sc):
         if not it.startswith("new=ok") or not sc:
@@ -1039,9 +1041,20 @@ class Views(Stream):
                     break
                 if not d.startswith("ok:D("):
                     break
+                # the reader's typed read asks for the type of the generated AST; on a mutated message the
+                # wire TYPE may differ: then only the header fields are comparable and the two passes diverge
+                parts = d[5:].rstrip(")").split(",")
+                variant = parts[0]
+                if self.VARIANT.get(int(ty)) != variant or (variant == "Name" and (len(parts) < 2 or parts[1] != ty)):
+                    want.append((sec, nm, cl, ty, ttl, None))
+                    break
                 want.append((sec, nm, cl, ty, ttl, d[3:]))
         got = [tuple(x) for x in items]
         for a, b in zip(got, want):
+            if b[5] is None:
+                if a[:5] != b[:5]:
+                    return "iterator item %s differs from the reader's header %s" % (a, b[:5])
+                continue
             if a != b:
                 return "iterator item %s differs from the reader's %s" % (a, b)
         return None
